@@ -42,7 +42,7 @@ def worlds(max_len, positions):
     return out
 
 
-def _range_bounds(r, length):
+def _range_bounds(r, length, iv=None):
     if r[0] != "adt":
         raise Unknown("range %r" % (r[:2],))
     f = dict(r[3])
@@ -50,6 +50,8 @@ def _range_bounds(r, length):
     def cv(x):
         if is_c(x) and isinstance(x[1], int):
             return x[1]
+        if iv is not None:
+            return iv(x)
         raise Unknown("non-constant range bound")
     if name == "Range":
         return cv(f["start"]), cv(f["end"])
@@ -73,10 +75,12 @@ def _lit(x):
 
 
 class Interp:
-    def __init__(self, d, world, opaque=None):
+    def __init__(self, d, world, opaque=None, ints=None):
         self.d = d
         self.w = world
         self.opaque = opaque or {}          # callee suffix -> python function(world) for calls kept opaque in the term
+        self.ints = ints or {}              # atoms with a concrete integer value on this world (e.g. a loop's offset)
+        self.chunk_n = None                 # N of first_chunk::<N> (the call's generic argument is not in the term)
 
     # ---- slices as python bytes
     def sv(self, s):
@@ -88,7 +92,7 @@ class Interp:
         k = s[0]
         if k == "call" and (s[1].endswith("::index") or s[1].endswith("::index_mut")) and len(s[2]) == 2:
             b = self.sv(s[2][0])
-            lo, hi = _range_bounds(s[2][1], len(b))
+            lo, hi = _range_bounds(s[2][1], len(b), self.iv)
             if not (lo <= hi <= len(b)):
                 raise Undefined()
             return b[lo:hi]
@@ -114,7 +118,47 @@ class Interp:
             return b[:n] if s[2] == "0" else b[n:]
         if k == "call" and s[1].endswith("::as_slice") or k == "call" and s[1].endswith("::as_ref"):
             return self.sv(s[2][0])
+        if k == "array" and not s[1]:
+            return b""
+        if k == "array":
+            return bytes(self.iv(x) & 0xFF for x in s[1])
+        if k == "repeat" and s[2] == 0:
+            return b""
+        if k == "fld" and s[2] in ("0", "1"):
+            t = self.tv(s[1])
+            return t[int(s[2])]
+        if k == "vfld" and s[2] == "Some":
+            o = self.ov(s[1])
+            if o is None:
+                raise Undefined()
+            return o
+        if k in ("cases", "ite"):
+            r = self.ev(s)
+            if isinstance(r, tuple) and r and r[0] == "bytes":
+                return r[1]
+            return self.sv(r)
+        if k == "bytes":
+            return s[1]
         raise Unknown("slice term %r" % (s[:2],))
+
+    # ---- tuples (pairs of slices from split_at / split_at_checked)
+    def tv(self, t):
+        if t[0] == "tuple":
+            return tuple(self.anyv(x) for x in t[1])
+        if t[0] == "call" and t[1].endswith("::split_at") and len(t[2]) == 2:
+            b = self.sv(t[2][0])
+            n = self.iv(t[2][1])
+            if n > len(b):
+                raise Undefined()
+            return (b[:n], b[n:])
+        if t[0] == "vfld" and t[2] == "Some":
+            o = self.ov(t[1])
+            if o is None:
+                raise Undefined()
+            return o
+        if t[0] in ("cases", "ite"):
+            return self.tv(self.ev(t))
+        raise Unknown("tuple term %r" % (t[:2],))
 
     # ---- options of slices
     def ov(self, o):
@@ -123,12 +167,18 @@ class Interp:
         if o[0] == "call" and o[1].endswith("<impl [T]>::get") and len(o[2]) == 2:
             b = self.sv(o[2][0])
             if o[2][1][0] == "adt":
-                lo, hi = _range_bounds(o[2][1], len(b))
+                lo, hi = _range_bounds(o[2][1], len(b), self.iv)
                 return b[lo:hi] if lo <= hi <= len(b) else None
             i = self.iv(o[2][1])
             return b[i] if i < len(b) else None
-        if o[0] == "call" and ("::first_chunk" in o[1] or "::split_first_chunk" in o[1]):
-            raise Unknown("first_chunk")
+        if o[0] == "call" and o[1].endswith("::first_chunk") and len(o[2]) == 1:
+            b = self.sv(o[2][0])
+            n = self.chunk_n or 4
+            return b[:n] if len(b) >= n else None
+        if o[0] == "call" and o[1].endswith("::split_at_checked") and len(o[2]) == 2:
+            b = self.sv(o[2][0])
+            n = self.iv(o[2][1])
+            return (b[:n], b[n:]) if n <= len(b) else None
         if o[0] in ("cases", "ite"):
             return self.ov(self.ev(o))
         raise Unknown("option term %r" % (o[:2],))
@@ -156,14 +206,60 @@ class Interp:
             return b[i]
         if k == "discr":
             return 0 if self.ov(x[1]) is None else 1
+        if x in self.ints:
+            return self.ints[x]
         if k == "cast":
-            return self.iv(x[1])
+            v = self.iv(x[1])
+            if len(x) == 4 and x[3] in sym.INT_TYS:
+                return sym.wrap(v, x[3])
+            return v
         if k == "vfld" and x[2] == "Some":
             o = self.ov(x[1])
             if o is None:
                 raise Undefined()
             if isinstance(o, int):
                 return o
+        if k == "be" and x[2] in sym.INT_TYS:
+            b = self.sv(x[1])
+            signed, bits = sym.INT_TYS[x[2]]
+            if len(b) * 8 != bits:
+                raise Undefined()
+            return int.from_bytes(b, "big", signed=bool(signed))
+        if k == "un" and x[1] == "unsigned_abs":
+            return abs(self.iv(x[2]))
+        if k == "un" and x[1] == "abs":
+            return abs(self.iv(x[2]))
+        if k == "call" and (x[1].endswith("::abs") or x[1].endswith("::unsigned_abs")) and len(x[2]) == 1 and "<impl i" in x[1]:
+            v = self.iv(x[2][0])
+            ty = x[1].split("<impl ")[1].split(">")[0]
+            if x[1].endswith("::abs") and v == sym.ty_range(ty)[0]:
+                raise Undefined()           # abs(MIN) overflows
+            return abs(v)
+        if k == "call" and x[1].endswith("::saturating_add") and len(x[2]) == 2 and "<impl " in x[1]:
+            ty = x[1].split("<impl ")[1].split(">")[0]
+            return min(self.iv(x[2][0]) + self.iv(x[2][1]), sym.ty_range(ty)[1])
+        if k == "call" and x[1].endswith("::saturating_sub") and len(x[2]) == 2:
+            return max(self.iv(x[2][0]) - self.iv(x[2][1]), 0)
+        if k == "call" and (x[1].endswith("::min") or x[1] == "core::cmp::min") and len(x[2]) == 2:
+            return min(self.iv(x[2][0]), self.iv(x[2][1]))
+        if k == "call" and (x[1].endswith("::max") or x[1] == "core::cmp::max") and len(x[2]) == 2:
+            return max(self.iv(x[2][0]), self.iv(x[2][1]))
+        if k == "bin" and len(x) == 5 and x[1] in ("Add", "Sub", "Mul", "Div", "Rem", "Shl", "Shr", "BitAnd", "BitOr"):
+            a, b = self.iv(x[2]), self.iv(x[3])
+            if x[1] in ("Div", "Rem") and b == 0:
+                raise Undefined()
+            r = {"Add": a + b, "Sub": a - b, "Mul": a * b, "Div": a // b if b else 0, "Rem": a % b if b else 0, "Shl": a << b, "Shr": a >> b,
+                 "BitAnd": a & b, "BitOr": a | b}[x[1]]
+            if x[4] in sym.INT_TYS:
+                lo, hi = sym.ty_range(x[4])
+                if not (lo <= r <= hi):
+                    raise Undefined()           # the checked operation would have panicked: not a value
+            return r
+        if k in ("cases", "ite"):
+            r = self.ev(x)
+            if isinstance(r, bool):
+                return int(r)
+            return self.iv(r)
         raise Unknown("integer term %r" % (x[:2],))
 
     # ---- decisions: returns True/False for boolean terms, else a term with the decidable tests folded away
@@ -202,6 +298,12 @@ class Interp:
                 return t
             r = a == b
             return r if t[1] == "Eq" else not r
+        if k == "bin" and t[1] in ("Lt", "Le", "Gt", "Ge") and len(t) == 5:
+            try:
+                a, b = self.iv(t[2]), self.iv(t[3])
+            except Unknown:
+                return t
+            return {"Lt": a < b, "Le": a <= b, "Gt": a > b, "Ge": a >= b}[t[1]]
         if k == "bin" and t[1] in ("BitAnd", "BitOr") and t[4] == "bool":
             a, b = self.ev(t[2]), self.ev(t[3])
             if isinstance(a, bool) and isinstance(b, bool):
